@@ -553,6 +553,12 @@ class Session:
         for pth, v in op["args"]:
             mirror.plain[pkey(pth)] = float("nan") if v == "nan" else v
         if line["impl"]["exc"] != "ok":
+            texts = " ".join(str(getattr(t, "expr", "")) for t in im.m.tasks.values())
+            if line["impl"]["exc"] == "NameError" and ("nan" in texts or "inf" in texts):
+                # an earlier division by zero left NaN in a location, and an in-place operator baked it into an expression
+                # as a literal: the printed source then names `nan` (C13 excludes division by zero, C11 non-finite constants)
+                stats["c13_out_of_scope"] = stats.get("c13_out_of_scope", 0) + 1
+                return
             if line["impl"]["exc"] not in ("KeyError", "IndexError", "TypeError", "AttributeError", "ZeroDivisionError"):
                 self.fail("C13", "generated-function-raises", {"args": op["args"], "exc": line["impl"]["exc"]})
             return
